@@ -96,7 +96,7 @@ class C04(Prop):
                    'inputs/output gradients are quantised to the factor dtype before the second moment (as "stored in the requested dtype" implies)',
                    'equal per-rank batch sizes in the multi-rank part']
     examples = {'quick': 200, 'thorough': 700}
-    shards = {'quick': 4, 'thorough': 16}
+    shards = {'quick': 8, 'thorough': 16}
     shrink_budget_s = {'quick': 30.0, 'thorough': 180.0}
     required_labels = {'quick': ['nontrivial=True', 'kind=single', 'kind=multi', 'loss_scale=True', 'factor_dtype=bfloat16', 'dynamic_loss_scale=True', 'autocast=True'],
                        'thorough': ['nontrivial=True', 'kind=single', 'kind=multi', 'loss_scale=True', 'factor_dtype=bfloat16', 'factor_dtype=float64']}
